@@ -13,6 +13,7 @@ package main
 import (
 	"context"
 	"fmt"
+	"strings"
 	"sync"
 	"sync/atomic"
 	"time"
@@ -53,12 +54,13 @@ type dlPayload struct {
 }
 
 type c09Send struct {
-	class   string // never stopped respawned foreign nil
-	target  *actor.PID
-	msg     any
-	tag     int
-	sender  *actor.PID
-	matcher func(any) bool
+	viaRequest bool   // sent with Engine.Request: the sender is the request's response PID
+	class      string // never stopped respawned foreign nil
+	target     *actor.PID
+	msg        any
+	tag        int
+	sender     *actor.PID
+	matcher    func(any) bool
 }
 
 func c09Run(c *caseCtx) (res caseResult) {
@@ -222,7 +224,23 @@ func c09Run(c *caseCtx) (res caseResult) {
 			s.sender = deadSender
 		}
 		tag := s.tag
-		switch r.Intn(4) {
+		switch r.Intn(6) {
+		case 4:
+			// the undeliverable message is itself an event value (a monitor that forwards what it sees to an
+			// audit actor that has gone away): a message like any other
+			inner := actor.DeadLetterEvent{Target: actor.NewPID("local", fmt.Sprintf("inner/%d", tag)), Message: fmt.Sprintf("inner-%d", tag)}
+			s.msg = inner
+			s.matcher = func(m any) bool {
+				v, ok := m.(actor.DeadLetterEvent)
+				return ok && v.Target != nil && v.Target.ID == fmt.Sprintf("inner/%d", tag)
+			}
+		case 5:
+			inner := actor.EngineRemoteMissingEvent{Target: actor.NewPID("10.9.9.9:1", fmt.Sprintf("inner/%d", tag)), Message: tag}
+			s.msg = inner
+			s.matcher = func(m any) bool {
+				v, ok := m.(actor.EngineRemoteMissingEvent)
+				return ok && v.Target != nil && v.Target.ID == fmt.Sprintf("inner/%d", tag)
+			}
 		case 0:
 			txt := fmt.Sprintf("text-%d", tag)
 			s.msg = txt
@@ -247,7 +265,11 @@ func c09Run(c *caseCtx) (res caseResult) {
 			s.matcher = func(m any) bool { return m == nil && tgt != nil }
 		}
 	}
-	for _, s := range sends {
+	for i := range sends {
+		s := &sends[i]
+		if s.target != nil && s.msg != nil && s.class != "foreign" && r.Intn(8) == 0 {
+			s.viaRequest = true
+		}
 		classes[s.class]++
 	}
 	// run them
@@ -260,9 +282,14 @@ func c09Run(c *caseCtx) (res caseResult) {
 			defer wg.Done()
 			for i := g; i < n; i += nG {
 				s := sends[i]
-				if s.sender == nil && i%2 == 0 {
+				switch {
+				case s.viaRequest:
+					// a request to nobody: the message is undeliverable like any other (the caller gets its timeout)
+					resp := e.Request(s.target, s.msg, 50*time.Millisecond)
+					go resp.Result()
+				case s.sender == nil && i%2 == 0:
 					e.Send(s.target, s.msg)
-				} else {
+				default:
 					e.SendWithSender(s.target, s.msg, s.sender)
 				}
 			}
@@ -412,7 +439,11 @@ func c09Run(c *caseCtx) (res caseResult) {
 						if s.target == nil || x.Target == nil || !x.Target.Equals(s.target) {
 							res.violate("monitor %d: DeadLetterEvent for send #%d names target %v, sent to %v", mi, s.tag, x.Target, s.target)
 						}
-						if pidStr(x.Sender) != pidStr(s.sender) {
+						if s.viaRequest {
+							if x.Sender == nil || !strings.HasPrefix(x.Sender.ID, "response/") {
+								res.violate("monitor %d: DeadLetterEvent for request #%d carries sender %v, expected the request's response PID", mi, s.tag, x.Sender)
+							}
+						} else if pidStr(x.Sender) != pidStr(s.sender) {
 							res.violate("monitor %d: DeadLetterEvent for send #%d carries sender %v, sent with %v", mi, s.tag, x.Sender, s.sender)
 						}
 					}
